@@ -201,12 +201,6 @@ func verifParseCounted(line []byte) {
 	}
 }
 
-func verifAnyBytes(max int) {
-	n := sym.Choice("lineLen", max+1)
-	line := sym.Bytes("line", n, n)
-	verifParseCounted(line)
-}
-
 // VerifC09_AccountingHead: arbitrary first bytes: exactly one of passed/dropped grows, by one and by len(input).
 //
 //verif:reach passed dropped
@@ -231,12 +225,10 @@ func VerifC07_ParseAnyHead() { verifAnyHead(7 + sym.Tier()) }
 //verif:unwind 100
 func VerifC07_ParseAnyTokens() { verifAnyTokens() }
 
-// VerifC07_ParseAnyBytesFull: fully arbitrary lines of 0..34 bytes (thorough only).
-//
-//verif:tier thorough
-//verif:reach dropped
-//verif:unwind 100
-func VerifC07_ParseAnyBytesFull() { verifAnyBytes(34) }
+// (A harness over fully arbitrary lines of the minimal record length, 32 bytes, was tried and
+// removed: every placement of the six token separators is a path (~4e5) and it did not finish in
+// 90 minutes; lines below 32 bytes are rejected by the length check alone. The head / token /
+// limit harnesses above split the same space by structure instead.)
 
 // VerifC09_Truncation: limits scaled down (message 6, record 46): an over-long
 // message is cut to at most the limit, to a prefix, at a valid UTF-8 boundary,
